@@ -99,7 +99,7 @@ func New(t *tape.Tape, log *core.Log, strategy string, stepCap int64) *S {
 	case Priority:
 		d := 1 + t.Choose(4, "pct-changes")
 		for i := 0; i < d; i++ {
-			s.changeAt[int64(1+t.Choose(3000, "pct-change-at"))] = true
+			s.changeAt[int64(1+t.Choose(400, "pct-change-at"))] = true
 		}
 	case Stall:
 		s.stallP = 4 + t.Choose(60, "stall-p")
